@@ -1046,6 +1046,16 @@ func setPodPhase(o *v1.Pod, phase int) {
 		o.Status.Phase = v1.PodPending
 		o.Spec.NodeName = "node"
 		o.Status.Conditions = nil
+		// Half of the scheduled-but-not-running states are phase Unknown (node lost): the
+		// choice is a function of the stored object (last digit of its resourceVersion, or
+		// of its name for a new object), so it replays and draws nothing from the PRNG.
+		sel := o.ResourceVersion
+		if sel == "" {
+			sel = o.Name
+		}
+		if sel != "" && sel[len(sel)-1]%2 == 1 {
+			o.Status.Phase = v1.PodUnknown
+		}
 	case 2:
 		o.Status.Phase = v1.PodRunning
 		o.Spec.NodeName = "node"
